@@ -30,11 +30,10 @@ example : Cursor.beNat (OutCursor.beBytes 2 0xabcd) = 0xabcd := by decide
     same order with the same views (derived lengths / tags above a recognised payload excluded, at most `padOf os` bytes of
     minimum-frame padding behind the payload), and — when the innermost payload is non-empty — serializing the re-parsed
     packet reproduces the bytes.  Proved by induction over the stack from the per-class `*_reparse` theorems and the
-    generated next-protocol tables (`Wire/L2/ThChain*.lean`).  The other families have the per-class halves
-    (`ip4_reparse`, `ipv6_reparse`, `tcp_reparse`, `udp_reparse`, `icmp_reparse_*`, `icmp6_reparse_*`, `ah_reparse`,
-    `esp_reparse`, the App and Wifi `*_reparse` theorems); `whole_packet_c03` below lifts them through the IP / IPv6
-    dispatch for the Ip, Ip6, Transport and Icmp families (App and Wifi: correspondence + oracle so far).  This theorem
-    additionally has the second-serialization clause, which the all-family theorem does not state. -/
+    generated next-protocol tables (`Wire/L2/ThChain*.lean`).  `whole_packet_c03` below lifts the per-class `*_reparse`
+    theorems of ALL seven families (link layer, Ip, Ip6, Transport, Icmp, App, Wifi) through every dispatch the parsing
+    constructors perform.  This theorem additionally has the second-serialization clause, which the all-family theorem does
+    not state. -/
 theorem l2_whole_packet_c03 (cls : String) (b : Bytes) (os : List Wire.AnyObj)
     (hparse : Wire.parseChain (b.length + 2) cls b = .ok os) (hall : ∀ o ∈ os, Wire.L2.L2Ser o) :
     ∃ out, Wire.serializeObjs os = .ok out ∧
@@ -42,17 +41,24 @@ theorem l2_whole_packet_c03 (cls : String) (b : Bytes) (os : List Wire.AnyObj)
         ((Wire.L2.splitRaw os).2 ≠ [] → Wire.serializeObjs os' = .ok out) :=
   Wire.L2.l2_c03 cls b os hparse hall
 
-/-- **whole_packet_c03** — C03 as stated, for whole packets of any depth that mix the link-layer family (EthernetII, 802.3,
-    LLC, SNAP, 802.1Q, MPLS, PPPoE, SLL, Loopback), IP (+options), IPSecAH, IPSecESP, IPv6 (+extension headers), UDP, TCP
-    (+options), ICMP, ICMPv6 and a final RawPDU: if libtins accepts `b` (a length a `uint32_t` can hold) as the stack `os`,
-    and `os` is none of the explicitly excluded packets (`ResidualAll`: a class outside these families or PPI / PKTAP; an
-    IP / IPv6 datagram too long for its 16-bit length field; ICMP / ICMPv6 with an RFC 4884 extension structure or a quote
-    that is not ghost-free — known findings KF-C03-Icmp-3/4; a top-level IP with source 0.0.0.0, whose serialization reads
-    the host's routing table), then serializing it succeeds, parsing the serialization succeeds and yields the same classes
-    in the same order with the same views (derived lengths / checksums / tags above a recognised payload excluded) and the
-    same payload, followed by at most `padAll os` zero bytes of minimum-frame padding.  IP fragments (payload kept as a
-    RawPDU) are covered.  Proved by induction over the stack from the per-class `*_reparse` theorems, the generated
-    next-protocol tables, and the per-class `*_parse_linkA` lemmas (`Wire/Chain/*.lean`). -/
+/-- **whole_packet_c03** — C03 as stated, for whole packets of any depth that mix ALL modelled families: the link-layer family
+    (EthernetII, 802.3, LLC, SNAP, 802.1Q, MPLS, PPPoE, SLL, Loopback), IP (+options), IPSecAH, IPSecESP, IPv6 (+extension
+    headers), UDP, TCP (+options), ICMP, ICMPv6, the App family (ARP below EthernetII / Dot1Q / SNAP / SLL, STP below LLC,
+    VXLAN in front of EthernetII, and the entry classes RTP, BootP, DHCP, DHCPv6), the Wifi family (RadioTap with its FCS
+    trailer in front of the class `Dot11::from_bytes` selects, the 21 Dot11 classes — management / control frames ending the
+    stack, Dot11Data / Dot11QoSData in front of SNAP or a protected RawPDU —, RC4EAPOL / RSNEAPOL below EtherType 0x888e
+    through `EAPOL::from_bytes`) and a final RawPDU; entry points are the class names and the factories `Dot11*`, `EAPOL`,
+    `EAPOL*`.  If libtins accepts `b` (a length a `uint32_t` can hold) as the stack `os`, and `os` is none of the explicitly
+    excluded packets (`ResidualAll`: PPI / PKTAP; an IP / IPv6 datagram or an EAPOL frame too long for its 16-bit length
+    field; ICMP / ICMPv6 with an RFC 4884 extension structure or a quote that is not ghost-free — known findings
+    KF-C03-Icmp-3/4; a top-level IP with source 0.0.0.0, whose serialization reads the host's routing table), then
+    serializing it succeeds, parsing the serialization **with the same entry point** succeeds and yields the same classes in
+    the same order with the same views (derived lengths / checksums / FCS / tags above a recognised payload excluded) and the
+    same payload, followed by at most `padAll os` zero bytes of minimum-frame padding (EthernetII / ARP: the padding becomes
+    ARP's RawPDU; through IP / IPv6 / EAPOL: none).  IP fragments (payload kept as a RawPDU) are covered.  Nothing of the App
+    family is excluded (a parser never produces the DHCP options of KF-WApp-6).  Proved by induction over the stack from the
+    per-class `*_reparse` theorems (RadioTap: `radiotap_reparse`, proved here), the generated next-protocol tables, and the
+    per-class `*_parse_linkA` / `*_parse_facts` lemmas (`Wire/Chain/*.lean`). -/
 theorem whole_packet_c03 (cls : String) (b : Bytes) (os : List Wire.AnyObj) (hb : b.length < 4294967296)
     (hparse : Wire.parseChain (b.length + 2) cls b = .ok os) (hres : Wire.ChainAll.ResidualAll os)
     (henv : ∀ o t, os = .ip o :: t → Wire.Ip.envDependentTop o = false) :
@@ -74,7 +80,8 @@ theorem whole_packet_c03_net (cls : String) (b : Bytes) (os : List Wire.AnyObj) 
 
 /-- **parsed_packet_representable** — the premise is not an assumption: every accepted packet outside `ResidualAll` is
     representable (`StackableAll`): the parsing constructors establish every layer's invariant, its wire-normal options /
-    aligned extension headers / canonical TCP options, and the link of every layer to its successor. -/
+    aligned extension headers / canonical TCP, DHCP, DHCPv6 and Dot11 tagged options, the RTP / BootP / RadioTap / EAPOL side
+    conditions, and the link of every layer to its successor — for the classes of all seven families. -/
 theorem parsed_packet_representable (cls : String) (b : Bytes) (os : List Wire.AnyObj) (hb : b.length < 4294967296)
     (hparse : Wire.parseChain (b.length + 2) cls b = .ok os) (hres : Wire.ChainAll.ResidualAll os) :
     Wire.ChainAll.StackableAll os :=
